@@ -803,6 +803,18 @@ def c20_sites(repo_root, tier):
                         ok = (not uses_value) or ("unescape(" in body and (kind == "DOUBLE_QUOTE_STRING" or "replace(\"\\\\'\", \"'\")" in body))
                         _ob(obs, f"{m.name}:{qual}/site.string-literal-decoded@{n.lineno - fn.lineno}.{kind}", ok,
                             f"{kind} token value " + ("is decoded with unescape()" + (" after \\' -> '" if kind == "SINGLE_QUOTE_STRING" else "") if ok else "is used without unescape()"))
+            # a test that accepts either quote kind (`is_token_type(t, SINGLE..) or is_token_type(t, DOUBLE..)`)
+            if isinstance(n, ast.If):
+                t = ast.unparse(n.test)
+                if "TokenType.DOUBLE_QUOTE_STRING)" in t and "TokenType.SINGLE_QUOTE_STRING)" in t and " or " in t and "is_token_type(" in t:
+                    n_sites += 1
+                    body = ast.unparse(ast.Module(body=n.body, type_ignores=[]))
+                    raw = [c for st in n.body for c in ast.walk(st) if isinstance(c, ast.Call) and ast.unparse(c.func) == "StringLiteral"
+                           and any(ast.unparse(a).endswith(".value") for a in list(c.args) + [k.value for k in c.keywords])]
+                    decoders = ("unescape(", "parse_string_or_identifier(", "parse_string_or_path(", "parse_primitive(")
+                    ok = not raw and (("StringLiteral(" not in body and ".value" not in body) or any(d in body for d in decoders))
+                    _ob(obs, f"{m.name}:{qual}/site.string-literal-decoded@{n.lineno - fn.lineno}.EITHER_QUOTE", ok,
+                        "a string token of either quote kind is turned into a value through a decoder" if ok else "a StringLiteral is built from the raw token text (escape sequences are not decoded)")
     _ob(obs, "liquid2/site.string-literal-sites.count", n_sites >= 8, f"{n_sites} string-literal parse sites found")
     # (2) the lexer keeps the raw text of bracketed string segments, decoded where the path is built
     # (3) integer literals: exact conversion, no float()
